@@ -49,6 +49,8 @@ type World struct {
 	midHash    [32]byte
 	blk2Hash   [32]byte   // a base block with two transactions
 	blk4Hash   [32]byte   // a base block with four transactions
+	side1Hash  [32]byte   // a dead side branch of two blocks that forks off the active chain at height 99:
+	side2Hash  [32]byte   // ... S1 (height 100) and its tip S2 (height 101), both delivered and stored
 	cb2        *btc.Tx    // coinbase of B2
 	orph       [2]*btc.Tx // two orphan transactions with the same short id under (B1 header, orphanNonce)
 	orphSid    uint64
@@ -186,6 +188,7 @@ func newWorld(dir string) *World {
 
 	// --- the base chain: coinbases pay to our key; block 105 also spends the coinbase of block 1
 	var cbs []*btc.Tx
+	var fork [32]byte
 	parent := w.genesis
 	for h := uint32(1); h <= baseBlocks; h++ {
 		var extra []*btc.Tx
@@ -211,6 +214,9 @@ func newWorld(dir string) *World {
 		if er = ch.AcceptBlock(bl); er != nil {
 			fatal("base block", h, "rejected by AcceptBlock:", er)
 		}
+		if h == 100 {
+			fork = parent
+		}
 		parent = bl.Hash.Hash
 		if h == 50 {
 			w.midHash = parent
@@ -220,6 +226,28 @@ func newWorld(dir string) *World {
 		}
 		if h == 106 {
 			w.blk4Hash = parent
+		}
+	}
+	// the dead side branch: two valid blocks on top of block 99, delivered after the active chain had passed them
+	sp := fork
+	for i, h := range []uint32{100, 101} {
+		cb := w.coinbase(h, nil)
+		raw := w.mine(sp, blockTime0+h*blockStep+7, []*btc.Tx{cb})
+		bl, _ := btc.NewBlock(raw)
+		ch.BlockIndexAccess.Lock()
+		_, _, er := ch.CheckBlock(bl)
+		ch.BlockIndexAccess.Unlock()
+		if er == nil {
+			er = ch.AcceptBlock(bl)
+		}
+		if er != nil {
+			fatal("side block", h, "rejected:", er)
+		}
+		sp = bl.Hash.Hash
+		if i == 0 {
+			w.side1Hash = sp
+		} else {
+			w.side2Hash = sp
 		}
 	}
 	ch.Blocks.Idle()
